@@ -283,7 +283,9 @@ def main(tier, seed, only=None):
     # ---- fresh interpreters
     n_sub = 0
     if not only or only == "seeds":
-        seeds = [0, 1, 2, 3, 17, 12345, "random"] if tier == "quick" else list(range(0, 24)) + [99991, "random", "random"]
+        # fixed seeds only (a "random" hash seed could not be replayed); VERIF_SEED rotates two extra ones
+        seeds = ([0, 1, 2, 3, 17, 12345, 1000 + seed] if tier == "quick"
+                 else list(range(0, 24)) + [99991, 1000 + seed, 2000 + seed])
         import concurrent.futures as cf
         for cfg in cfgs[:1] if tier == "quick" else cfgs[:2]:
             ref = None
